@@ -256,6 +256,17 @@ def bounded_rolling(p):
   r_def = sum((a - mx) * (b - my) for a, b in zip(xs, ys)) / math.sqrt(sum((a - mx) ** 2 for a in xs) * sum((b - my) ** 2 for b in ys))
   rr = rs.RRegression(); rr.add(np.array(xs), np.array(ys))
   S.check(mc.close(rr.result(), r_def, 1e-9), dict(what='RRegression'), f'RRegression = {rr.result()}, Pearson r {r_def}')
+  # scale invariance: ratios of tiny (non-zero) numbers are ratios, not zero-denominator cases
+  from ml_metrics._src.utils import math_utils
+  for scale in (1.0, 1e-3, 1e-7, 1e-9, 1e-12):
+    x, y = np.array([1.0, 2.0, 4.0]) * scale, np.array([2.0, 2.0, 1.0]) * scale
+    exp = float(np.mean(2 * np.abs(x - y) / np.abs(x + y)))
+    spd = rs.SymmetricPredictionDifference(); spd.add(x, y)
+    if not S.check(mc.close(spd.result(), exp, 1e-9), dict(what='SymmetricPredictionDifference', scale=scale), f'SPD at scale {scale}: {spd.result()}, definition {exp}'):
+      return S.result()
+    got = math_utils.safe_divide(np.array([3.0 * scale, 0.0]), np.array([2.0 * scale, 0.0]))
+    if not S.check(mc.close(float(got[0]), 1.5, 1e-9) and float(got[1]) == 0.0, dict(what='safe_divide', scale=scale), f'safe_divide([3s, 0], [2s, 0]) at s={scale}: {got.tolist()}'):
+      return S.result()
   yt, ypd = [1, 0, 1, 0, 1], [0.9, 0.2, 0.6, 0.4, 0.7]
   pos = [p_ for t, p_ in zip(yt, ypd) if t]; neg = [p_ for t, p_ in zip(yt, ypd) if not t]
   tj = rs.R2Tjur(); tj.add(np.array(yt), np.array(ypd))
